@@ -14,6 +14,7 @@ import (
 	"strconv"
 	"strings"
 	"sync"
+	"time"
 
 	"github.com/go-logr/logr"
 	"github.com/prometheus/client_golang/prometheus"
@@ -69,7 +70,12 @@ type Attr struct {
 	R int    `json:"r"`
 	F bool   `json:"f"` // removed from the stream by the view's attribute filter (visible only in exemplars)
 	N int    `json:"n"` // runes of key + value text
+	// Ill: ill-formed but accepted by the SDK: the real value is not valid UTF-8 (V stays the abstract text)
+	Ill bool `json:"ill"`
 }
+
+// badUTF8 is what makes a text ill-formed: accepted by the OTel API/SDK, not representable in Prometheus.
+const badUTF8 = "\xff\xfe"
 
 func (a Attr) kv() attribute.KeyValue {
 	k := attribute.Key(render(a.K))
@@ -82,6 +88,9 @@ func (a Attr) kv() attribute.KeyValue {
 		return k.Int64(n)
 	case "b":
 		return k.Bool(a.V == "true")
+	}
+	if a.Ill {
+		return k.String(badUTF8 + a.V)
 	}
 	return k.String(a.V)
 }
@@ -102,6 +111,14 @@ type Inst struct {
 	Unit  string `json:"unit"`
 	Kind  string `json:"kind"` // counter updown gauge hist exphist ; prefix "f" = float64, "o" = observable
 	Desc  string `json:"desc"`
+	Ill   bool   `json:"ill"` // ill-formed: the real description is not valid UTF-8
+}
+
+func descOf(in Inst) string {
+	if in.Ill {
+		return in.Desc + badUTF8
+	}
+	return in.Desc
 }
 
 func baseKind(k string) string { return strings.TrimLeft(k, "fo") }
@@ -113,6 +130,21 @@ type ScopeRec struct {
 	Version string `json:"version"`
 	URL     string `json:"url"`
 	Attrs   []Attr `json:"attrs"`
+	Ill     string `json:"ill"` // "" | "name" | "version" | "attr": which part of the real scope is not valid UTF-8
+}
+
+// concrete: the real identity of an abstract scope.
+func (r ScopeRec) concrete() (name, version string, attrs []attribute.KeyValue) {
+	name, version, attrs = r.Name, r.Version, kvs(r.Attrs)
+	switch r.Ill {
+	case "name":
+		name += badUTF8
+	case "version":
+		version += badUTF8
+	case "attr":
+		attrs = append(attrs, attribute.String("bad", badUTF8))
+	}
+	return
 }
 
 // ---------------------------------------------------------------- observed exposition
@@ -376,6 +408,7 @@ type world struct {
 	filtered  []attribute.Key // keys removed by the view's attribute filter
 	mark      bool            // measurements carry the vinst marker
 	byName    map[string]int  // scope id + lower-case OTel name -> instrument id (used when !mark)
+	gate      *gate           // rendezvous of overlapping scrapes (concurrent scenarios)
 }
 
 // one tracer provider for the process: measurements "inside a sampled span" get exemplars
@@ -393,8 +426,9 @@ func (w *world) scopeRec(id string) ScopeRec {
 // scopeID maps what the SDK reports back to the scenario's scope id.
 func (w *world) scopeID(sc instrumentation.Scope) string {
 	for _, r := range w.scopeRecs {
-		want := attribute.NewSet(kvs(r.Attrs)...)
-		if r.Name == sc.Name && r.Version == sc.Version && r.URL == sc.SchemaURL && want.Equals(&sc.Attributes) {
+		name, version, attrs := r.concrete()
+		want := attribute.NewSet(attrs...)
+		if name == sc.Name && version == sc.Version && r.URL == sc.SchemaURL && want.Equals(&sc.Attributes) {
 			return r.ID
 		}
 	}
@@ -434,7 +468,54 @@ func init() {
 	}))
 }
 
-func newWorld(o Opts, res []Attr) (*world, error) {
+// gate is an external metric.Producer (WithProducer): the reader calls it from inside Collect outside of every
+// SDK lock. While armed it parks each scrape until `parties` scrapes have arrived, so that they continue into
+// the exporter's code without any happens-before order between them. The timeout only keeps the run alive.
+type gate struct {
+	mu      sync.Mutex
+	armed   bool
+	parties int
+	arrived int
+	ch      chan struct{}
+}
+
+func (g *gate) arm(parties int) {
+	g.mu.Lock()
+	g.armed, g.parties, g.arrived = parties > 1, parties, 0
+	g.mu.Unlock()
+}
+
+func (g *gate) Produce(context.Context) ([]metricdata.ScopeMetrics, error) {
+	g.mu.Lock()
+	if !g.armed {
+		g.mu.Unlock()
+		return nil, nil
+	}
+	g.arrived++
+	ch := g.ch
+	if g.arrived >= g.parties {
+		g.arrived = 0
+		g.ch = make(chan struct{})
+		close(ch)
+		g.mu.Unlock()
+		return nil, nil
+	}
+	g.mu.Unlock()
+	select {
+	case <-ch:
+	case <-time.After(500 * time.Millisecond):
+		g.mu.Lock()
+		if g.ch == ch && g.arrived > 0 {
+			g.arrived--
+		}
+		g.mu.Unlock()
+	}
+	return nil, nil
+}
+
+func newWorld(o Opts, res []Attr) (*world, error) { return newWorldGate(o, res, false) }
+
+func newWorldGate(o Opts, res []Attr, withGate bool) (*world, error) {
 	if o.Scheme != *scheme {
 		return nil, fmt.Errorf("scenario scheme %q but process runs %q", o.Scheme, *scheme)
 	}
@@ -467,11 +548,20 @@ func newWorld(o Opts, res []Attr) (*world, error) {
 		}
 		popts = append(popts, otelprom.WithResourceAsConstantLabels(attribute.NewAllowKeysFilter(allow...)))
 	}
+	if withGate {
+		w.gate = &gate{ch: make(chan struct{})}
+		popts = append(popts, otelprom.WithProducer(w.gate))
+	}
 	exp, err := otelprom.New(popts...)
 	if err != nil {
 		return nil, err
 	}
 	w.exp = exp
+	return w, nil
+}
+
+// register hands the exporter to a MeterProvider (WithReader): before that the exporter is an unregistered reader.
+func (w *world) register() {
 	view := func(i sdkmetric.Instrument) (sdkmetric.Stream, bool) {
 		w.mu.Lock()
 		defer w.mu.Unlock()
@@ -487,13 +577,14 @@ func newWorld(o Opts, res []Attr) (*world, error) {
 		}
 		return st, use
 	}
-	w.mp = sdkmetric.NewMeterProvider(sdkmetric.WithReader(exp), sdkmetric.WithView(view),
-		sdkmetric.WithResource(resource.NewSchemaless(kvs(res)...)))
-	return w, nil
+	w.mp = sdkmetric.NewMeterProvider(sdkmetric.WithReader(w.exp), sdkmetric.WithView(view),
+		sdkmetric.WithResource(resource.NewSchemaless(kvs(w.res)...)))
 }
 
 func (w *world) close() {
-	_ = w.mp.Shutdown(context.Background())
+	if w.mp != nil {
+		_ = w.mp.Shutdown(context.Background())
+	}
 	curMu.Lock()
 	if curWorld == w {
 		curWorld = nil
@@ -506,14 +597,15 @@ func (w *world) meter(scope string) metric.Meter {
 		return m
 	}
 	r := w.scopeRec(scope)
-	mopts := []metric.MeterOption{metric.WithInstrumentationVersion(r.Version)}
+	name, version, attrs := r.concrete()
+	mopts := []metric.MeterOption{metric.WithInstrumentationVersion(version)}
 	if r.URL != "" {
 		mopts = append(mopts, metric.WithSchemaURL(r.URL))
 	}
-	if len(r.Attrs) > 0 {
-		mopts = append(mopts, metric.WithInstrumentationAttributes(kvs(r.Attrs)...))
+	if len(attrs) > 0 {
+		mopts = append(mopts, metric.WithInstrumentationAttributes(attrs...))
 	}
-	m := w.mp.Meter(r.Name, mopts...)
+	m := w.mp.Meter(name, mopts...)
 	w.scopes[scope] = m
 	return m
 }
@@ -543,26 +635,26 @@ func (w *world) create(in Inst) error {
 		switch bk {
 		case "counter":
 			if float {
-				_, err = m.Float64ObservableCounter(name, metric.WithUnit(in.Unit), metric.WithDescription(in.Desc),
+				_, err = m.Float64ObservableCounter(name, metric.WithUnit(in.Unit), metric.WithDescription(descOf(in)),
 					metric.WithFloat64Callback(func(_ context.Context, o metric.Float64Observer) error { ri.observeF(o); return nil }))
 			} else {
-				_, err = m.Int64ObservableCounter(name, metric.WithUnit(in.Unit), metric.WithDescription(in.Desc),
+				_, err = m.Int64ObservableCounter(name, metric.WithUnit(in.Unit), metric.WithDescription(descOf(in)),
 					metric.WithInt64Callback(func(_ context.Context, o metric.Int64Observer) error { ri.observeI(o); return nil }))
 			}
 		case "updown":
 			if float {
-				_, err = m.Float64ObservableUpDownCounter(name, metric.WithUnit(in.Unit), metric.WithDescription(in.Desc),
+				_, err = m.Float64ObservableUpDownCounter(name, metric.WithUnit(in.Unit), metric.WithDescription(descOf(in)),
 					metric.WithFloat64Callback(func(_ context.Context, o metric.Float64Observer) error { ri.observeF(o); return nil }))
 			} else {
-				_, err = m.Int64ObservableUpDownCounter(name, metric.WithUnit(in.Unit), metric.WithDescription(in.Desc),
+				_, err = m.Int64ObservableUpDownCounter(name, metric.WithUnit(in.Unit), metric.WithDescription(descOf(in)),
 					metric.WithInt64Callback(func(_ context.Context, o metric.Int64Observer) error { ri.observeI(o); return nil }))
 			}
 		case "gauge":
 			if float {
-				_, err = m.Float64ObservableGauge(name, metric.WithUnit(in.Unit), metric.WithDescription(in.Desc),
+				_, err = m.Float64ObservableGauge(name, metric.WithUnit(in.Unit), metric.WithDescription(descOf(in)),
 					metric.WithFloat64Callback(func(_ context.Context, o metric.Float64Observer) error { ri.observeF(o); return nil }))
 			} else {
-				_, err = m.Int64ObservableGauge(name, metric.WithUnit(in.Unit), metric.WithDescription(in.Desc),
+				_, err = m.Int64ObservableGauge(name, metric.WithUnit(in.Unit), metric.WithDescription(descOf(in)),
 					metric.WithInt64Callback(func(_ context.Context, o metric.Int64Observer) error { ri.observeI(o); return nil }))
 			}
 		default:
@@ -592,13 +684,13 @@ func (w *world) create(in Inst) error {
 	case "counter":
 		if float {
 			var c metric.Float64Counter
-			c, err = m.Float64Counter(name, metric.WithUnit(in.Unit), metric.WithDescription(in.Desc))
+			c, err = m.Float64Counter(name, metric.WithUnit(in.Unit), metric.WithDescription(descOf(in)))
 			ri.add = func(ctx context.Context, v float64, a []attribute.KeyValue) {
 				c.Add(ctx, v, metric.WithAttributes(a...))
 			}
 		} else {
 			var c metric.Int64Counter
-			c, err = m.Int64Counter(name, metric.WithUnit(in.Unit), metric.WithDescription(in.Desc))
+			c, err = m.Int64Counter(name, metric.WithUnit(in.Unit), metric.WithDescription(descOf(in)))
 			ri.add = func(ctx context.Context, v float64, a []attribute.KeyValue) {
 				c.Add(ctx, int64(v), metric.WithAttributes(a...))
 			}
@@ -606,13 +698,13 @@ func (w *world) create(in Inst) error {
 	case "updown":
 		if float {
 			var c metric.Float64UpDownCounter
-			c, err = m.Float64UpDownCounter(name, metric.WithUnit(in.Unit), metric.WithDescription(in.Desc))
+			c, err = m.Float64UpDownCounter(name, metric.WithUnit(in.Unit), metric.WithDescription(descOf(in)))
 			ri.add = func(ctx context.Context, v float64, a []attribute.KeyValue) {
 				c.Add(ctx, v, metric.WithAttributes(a...))
 			}
 		} else {
 			var c metric.Int64UpDownCounter
-			c, err = m.Int64UpDownCounter(name, metric.WithUnit(in.Unit), metric.WithDescription(in.Desc))
+			c, err = m.Int64UpDownCounter(name, metric.WithUnit(in.Unit), metric.WithDescription(descOf(in)))
 			ri.add = func(ctx context.Context, v float64, a []attribute.KeyValue) {
 				c.Add(ctx, int64(v), metric.WithAttributes(a...))
 			}
@@ -620,13 +712,13 @@ func (w *world) create(in Inst) error {
 	case "gauge":
 		if float {
 			var c metric.Float64Gauge
-			c, err = m.Float64Gauge(name, metric.WithUnit(in.Unit), metric.WithDescription(in.Desc))
+			c, err = m.Float64Gauge(name, metric.WithUnit(in.Unit), metric.WithDescription(descOf(in)))
 			ri.add = func(ctx context.Context, v float64, a []attribute.KeyValue) {
 				c.Record(ctx, v, metric.WithAttributes(a...))
 			}
 		} else {
 			var c metric.Int64Gauge
-			c, err = m.Int64Gauge(name, metric.WithUnit(in.Unit), metric.WithDescription(in.Desc))
+			c, err = m.Int64Gauge(name, metric.WithUnit(in.Unit), metric.WithDescription(descOf(in)))
 			ri.add = func(ctx context.Context, v float64, a []attribute.KeyValue) {
 				c.Record(ctx, int64(v), metric.WithAttributes(a...))
 			}
@@ -634,14 +726,14 @@ func (w *world) create(in Inst) error {
 	case "hist", "exphist":
 		if float {
 			var c metric.Float64Histogram
-			c, err = m.Float64Histogram(name, metric.WithUnit(in.Unit), metric.WithDescription(in.Desc),
+			c, err = m.Float64Histogram(name, metric.WithUnit(in.Unit), metric.WithDescription(descOf(in)),
 				metric.WithExplicitBucketBoundaries(histBounds...))
 			ri.add = func(ctx context.Context, v float64, a []attribute.KeyValue) {
 				c.Record(ctx, v, metric.WithAttributes(a...))
 			}
 		} else {
 			var c metric.Int64Histogram
-			c, err = m.Int64Histogram(name, metric.WithUnit(in.Unit), metric.WithDescription(in.Desc),
+			c, err = m.Int64Histogram(name, metric.WithUnit(in.Unit), metric.WithDescription(descOf(in)),
 				metric.WithExplicitBucketBoundaries(histBounds...))
 			ri.add = func(ctx context.Context, v float64, a []attribute.KeyValue) {
 				c.Record(ctx, int64(v), metric.WithAttributes(a...))
